@@ -1,5 +1,6 @@
 import UscxmlVerif.Model.Tables
 import UscxmlVerif.Proofs.Struct
+import UscxmlVerif.Proofs.Flatten
 /-!
 # C05 — the transpilers compute the chart's structural relations correctly
 
@@ -112,6 +113,12 @@ theorem conflict_table_exact (c : Chart) (i j : Nat)
     (h2 : isDescendant c (sourceState c (tr c j)) (sourceState c (tr c i)) = false) :
     conflicts c i j = true ↔ ∃ s, s ∈ exitSet c (tr c i) ∧ s ∈ exitSet c (tr c j) :=
   conflicts_exact c i j hne h1 h2
+
+/-- the hypothesis `Coherent` is a theorem for the charts the checks work with: `flatten` of every document whose root is
+`<scxml>`, in which only scxml / state / parallel elements have state-like children and no child is an scxml element -/
+theorem flatten_is_coherent (d : Doc) (late : Bool) (hwf : Proofs.Flatten.WFDoc d = true) (hroot : d.kind = .scxml) :
+    Coherent (flatten d late) = true :=
+  Proofs.Flatten.coherent_flatten d late hwf hroot
 
 /-- the hypotheses are satisfiable: scxml{ p{a b} q } with a transition a -> q -/
 def sample : Chart :=
